@@ -134,6 +134,26 @@ def DState.getState (d : DState) (name : String) : CoinState :=
 def DState.putState (d : DState) (name : String) (cs : CoinState) : DState :=
   { d with states := (name, cs) :: d.states.filter (·.1 != name) }
 
+/-- every single-bit flip and every truncation of a block's encoding: which decode, which are
+accepted by full validation against the state -/
+def flipsCmd (C : Crypto) (P : Params) (cs : CoinState) (bs : Bytes) (now : Int) : String :=
+  let arr := bs.toArray
+  let classify (m : Bytes) : Char :=
+    match Block.ofBytes C m with
+    | none => 'u'
+    | some b => match addBlock C P cs b now with
+      | .ok _ => 'a'
+      | .error _ => 'r'
+  let flipAt (i : Nat) : Bytes :=
+    (arr.modify (i / 8) fun x => x ^^^ ((1 : UInt8) <<< (UInt8.ofNat (i % 8)))).toList
+  let cls := (List.range (8 * arr.size)).map fun i => classify (flipAt i)
+  let tcls := (List.range arr.size).map fun n => classify (bs.take n)
+  let acc := (List.range (8 * arr.size)).zip cls |>.filter (·.2 == 'a') |>.map (toString ·.1)
+  let tacc := (List.range arr.size).zip tcls |>.filter (·.2 != 'u') |>.map (toString ·.1)
+  let dec := (cls.filter (· != 'u')).length
+  s!"dec={dec} acc={if acc.isEmpty then "-" else String.intercalate "," acc} " ++
+  s!"tdec={if tacc.isEmpty then "-" else String.intercalate "," tacc} dd={short (sha256 (String.ofList cls).toUTF8.toList)}"
+
 def step (d : DState) (line : String) : DState × String :=
   let C := d.crypto
   match (line.trimAscii.toString.splitOn " ").filter (· ≠ "") with
@@ -149,6 +169,28 @@ def step (d : DState) (line : String) : DState × String :=
   | "frames" :: ms :: chunks =>
     (d, match ms.toNat? with
       | some m => framesCmd m (chunks.map hx)
+      | none => "bad-op")
+  | "mroot" :: items =>
+    (d, match merkleRoot sha256d (items.map hx) with
+      | some r => toHex r
+      | none => "none")
+  | "mproof" :: i :: items =>
+    (d, match i.toNat?, merkleTree (items.map hx) with
+      | some k, some t =>
+        let p := getProof sha256d t k
+        toHex (p.hash sha256d) ++ " " ++ String.intercalate "," (p.leaves.map fun (ix, v) => s!"{ix}:{toHex v}")
+      | _, _ => "none")
+  | ["chk", h, id] =>
+    (d, match h.toNat? with
+      | some k =>
+        let b : Block := ⟨⟨⟨k, zeros 32, zeros 32, 0, zeros 32, 0⟩, ⟨zeros 32, zeros 32, zeros 32⟩⟩, [], some (hx id)⟩
+        match validateBlockInState C d.params CoinState.empty b with
+        | .ok _ => "ok"
+        | .error e => "rej " ++ errKind e
+      | none => "bad-op")
+  | ["flips", name, blk, now] =>
+    (d, match now.toInt? with
+      | some t => flipsCmd C d.params (d.getState name) (hx blk) t
       | none => "bad-op")
   | ["p", name, v] =>
     (match v.toInt? with
